@@ -106,17 +106,58 @@ StrsOver(S, n) == IF n = 0 THEN {<<>>}
 WireSafeX(w) == \A i \in DOMAIN w : w[i] >= 33 /\ w[i] <= 126 /\ w[i] # EQ
 WireSafeU(w) == \A i \in DOMAIN w : w[i] >= 33 /\ w[i] # EQ /\ w[i] # DEL /\ (w[i] = PLUS => FALSE)
 
+-----------------------------------------------------------------------------
+(* Sender and recipient mailboxes (C14) are not encoded at all: the client  *)
+(* writes "<" mailbox ">" as UTF-8 octets, and the server's path parser     *)
+(* works octet by octet - a dot-string local part up to "@", then a domain  *)
+(* up to the first SP, TAB or ">".  What has to hold is that no octet of    *)
+(* the UTF-8 form of a character that may occur in a mailbox is taken for   *)
+(* one of those delimiters.                                                 *)
+
+Utf8(c) == IF c < 128 THEN <<c>>
+           ELSE IF c < 2048 THEN <<192 + (c \div 64), 128 + (c % 64)>>
+           ELSE IF c < 65536 THEN <<224 + (c \div 4096), 128 + ((c \div 64) % 64), 128 + (c % 64)>>
+           ELSE <<240 + (c \div 262144), 128 + ((c \div 4096) % 64), 128 + ((c \div 64) % 64), 128 + (c % 64)>>
+RECURSIVE Utf8Seq(_)
+Utf8Seq(s) == IF s = <<>> THEN <<>> ELSE Utf8(Head(s)) \o Utf8Seq(Tail(s))
+
+AT == 64  GT == 62  TAB == 9
+LocalSpecials == {40, 41, 60, 62, 91, 93, 58, 59, BSL, 44, 34, SP, TAB}   \* the RFC 5321 specials, SP and TAB
+RECURSIVE TakeLocal(_)
+\* octets of the local part: up to "@"; a special character is an error
+TakeLocal(w) == IF w = <<>> \/ Head(w) = AT THEN <<>>
+                ELSE IF Head(w) \in LocalSpecials THEN Err
+                ELSE LET rest == TakeLocal(Tail(w)) IN IF rest = Err THEN Err ELSE <<Head(w)>> \o rest
+RECURSIVE TakeDomain(_)
+TakeDomain(w) == IF w = <<>> \/ Head(w) \in {SP, TAB, GT} THEN <<>> ELSE <<Head(w)>> \o TakeDomain(Tail(w))
+
+\* the mailbox the server reads from the octets between "<" and the end of the line
+ParseMailbox(w) ==
+  LET l == TakeLocal(w) IN
+  IF l = Err \/ l = <<>> \/ Len(l) >= Len(w) THEN Err
+  ELSE LET d == TakeDomain(SubSeq(w, Len(l) + 2, Len(w))) IN
+       IF d = <<>> THEN Err ELSE l \o <<AT>> \o d
+
+\* characters a mailbox part is made of here: atext samples, the dot, and
+\* non-ASCII characters whose UTF-8 forms run through the octet values
+\* (0x85 and 0xA0 - Latin-1 NEL and NBSP - as continuation octets included)
+MboxAlphabet == {97, 45, 46, 133, 160, 224, 197, 1927, 2047, 2048, 8230, 26085, 65535, 65536, 128512, 1114111}
+
 VARIABLES mode, str
 Init == \/ mode = "xtext" /\ str \in StrsOver(AsciiAlphabet, MaxLen)
         \/ mode \in {"u8x", "uni"} /\ str \in StrsOver(UniAlphabet, MaxLen)
+        \/ mode = "mbox" /\ str \in StrsOver(MboxAlphabet, IF MaxLen > 3 THEN 3 ELSE MaxLen) \ {<<>>}
 Next == UNCHANGED <<mode, str>>
 
-Wire == CASE mode = "xtext" -> EncX(str) [] mode = "u8x" -> EncU8X(str) [] OTHER -> EncUni(str)
+\* mbox: the same string as local part and as domain
+MboxOctets == Utf8Seq(str) \o <<AT>> \o Utf8Seq(str)
+Wire == CASE mode = "xtext" -> EncX(str) [] mode = "u8x" -> EncU8X(str) [] mode = "mbox" -> MboxOctets [] OTHER -> EncUni(str)
 
 RoundTrip == CASE mode = "xtext" -> DecX(EncX(str)) = str
                [] mode = "u8x" -> DecU8(EncU8X(str)) = str
+               [] mode = "mbox" -> ParseMailbox(MboxOctets \o <<GT>>) = MboxOctets
                [] OTHER -> DecU8(EncUni(str)) = str
-WireSafe == IF mode = "xtext" THEN WireSafeX(Wire) ELSE WireSafeU(Wire)
+WireSafe == CASE mode = "xtext" -> WireSafeX(Wire) [] mode = "mbox" -> TRUE [] OTHER -> WireSafeU(Wire)
 SevenBit == mode = "u8x" => \A i \in DOMAIN Wire : Wire[i] < 128
 
 Dump == Len(str) <= 2 => PrintT(<<"XT", ToJson([mode |-> mode, str |-> str, wire |-> Wire])>>)
